@@ -66,6 +66,7 @@ type Case struct {
 	RowsJ   []RowJ   `json:"rowsj,omitempty"`   // rows: the batch, field by field (for the model)
 	Seed    uint64   `json:"seed,omitempty"`    // rows/record: generator seed of the case
 	CMode   int      `json:"cmode,omitempty"`   // file: chunk-meta-compress-mode the file was written under
+	CMS     *CMSJ    `json:"cms,omitempty"`     // col: the chunk meta as marshalled under chunk-meta-compress-mode = self
 	MF      *MFJ     `json:"mf,omitempty"`      // mfile: expected chunk ranges, real trailer range and meta-index entries
 	PA      *PAJ     `json:"pa,omitempty"`      // preagg: statistics value and, per mode, the real bytes and what the reader returned
 	seed    uint64
